@@ -584,9 +584,11 @@ sys_ia32(struct os_init_data *ctl)
 		addrxlat_meth_t *meth;
 		meth = &ctl->sys->meth[ADDRXLAT_SYS_METH_PGT];
 		status = get_linux_pgt_root(ctl->ctx, &meth->param.pgt.root);
-		if (status != ADDRXLAT_OK)
+		if (status != ADDRXLAT_OK) {
+			internal_map_decref(newmap);
 			return set_error(ctl->ctx, status,
 					 "Cannot determine root page table");
+		}
 
 		status = set_linux_directmap(ctl, newmap);
 		if (status != ADDRXLAT_OK) {
